@@ -184,6 +184,27 @@ func checkC07(c *core.Ctx) {
 	r2 := c.Rule("R7.2", "D", "no requested byte is read before it is written")
 	r3 := c.Rule("R7.3", "D", "serializers have no definite out-of-range access to a layer's slice fields")
 	r4 := c.Rule("R7.4", "T", "serializers read no mutable global; no global array escapes into a layer field")
+	r7 := c.Rule("R7.7", "D", "sizes and bounds in serializers are not computed in uint8/uint16 from a field plus a constant where that wraps")
+	{
+		n := 0
+		for _, fn := range core.SortedFns(p.Roots().SerReach) {
+			if fn.Pkg == nil || len(fn.Blocks) == 0 || strings.HasSuffix(p.Pos(fn.Pos()), "_test.go") {
+				continue
+			}
+			for i, s := range guard.NarrowLengthOps(fn, nil) {
+				n++
+				key := fmt.Sprintf("%s/narrow-%s#%d", core.FnKey(fn), s.At.Op.String(), i+1)
+				if s.What == "buffer request size" || s.Definite {
+					r7.Violate(key, p.InstrPos(s.At), fmt.Sprintf("%s is evaluated in %s on a layer field and wraps for large values; the wrapped result is used as a %s at %s: the buffer request (or slice) is too small for what is then written, so serializing a layer that decoding can produce panics", s.At.Op.String(), s.At.Type().String(), s.What, p.InstrPos(s.Use)), nil)
+				} else {
+					r7.Undecided(key, p.InstrPos(s.At), fmt.Sprintf("%s in %s can wrap; used as a %s at %s", s.At.Op.String(), s.At.Type().String(), s.What, p.InstrPos(s.Use)))
+				}
+			}
+		}
+		if n == 0 {
+			r7.OK("serialize/narrow-size-arithmetic", "", "no wrapping 8/16-bit size arithmetic in serializers")
+		}
+	}
 	r6 := c.Rule("R7.6", "T", "no write through a stale view: bytes obtained from the SerializeBuffer (Bytes, PrependBytes, AppendBytes) are not written through after a later PrependBytes/AppendBytes on that buffer, which may move the data to a new array")
 	{
 		n := 0
